@@ -144,6 +144,12 @@ def run_case(spec):
         res.obs['files'] += 1
         if cfg != cfg2:
             res.violation('C16/parsing-twice-differs', 'two get_config calls on the same file differ', text=text)
+        if spec['idx'] % 3 == 0:
+            # the same path is rewritten by the next case: the number of earlier parses of a path must not matter
+            cfg3 = get_config(path)
+            res.obs['third_parse'] += 1
+            if cfg3 != cfg:
+                res.violation('C16/parsing-twice-differs', 'a third get_config call on the same file differs', text=text)
         ref = reference(secs, OSENV)
         got = {w['name']: w for w in cfg['watchers']}
         if set(got) != set(ref):
